@@ -59,6 +59,13 @@ def backup (fs : FS) : List String → FS
     | none, some b => backup (fs ++ [(f ++ ".orig", b)]) rest
     | _, _ => backup fs rest
 
+/-- the permission bits of the test cases along one `run_pass`: whatever the pass and `process_result` do to them in between
+    (`steps`: a pass that rewrites the file through a private temporary file leaves 0600), `restore_mode()` puts the modes
+    recorded at start-up back — if it is called when the pass completes (`restoreAtEnd`, read from the source) -/
+def passModes (restoreAtEnd : Bool) (orig : List Nat) (steps : List (List Nat → List Nat)) : List Nat :=
+  let m := steps.foldl (fun m f => f m) orig
+  if restoreAtEnd then orig else m
+
 /-! ### C17: start-up validation -/
 
 structure Validation where
